@@ -88,6 +88,7 @@ type Contracts struct {
 	Inline       map[string]bool   // pkgpath::funcname : small helpers inlined at call sites
 	SortAliases  map[string]SortAlias
 	Tracks       map[string]string // pkg::(Iface).Method -> ghost set of receivers it was called on
+	Monitors     map[string]*MonitorDecl // pkgpath.Type.field
 }
 
 type SortAlias struct {
@@ -100,7 +101,7 @@ type GlobalFact struct {
 }
 
 var clauseKeywords = map[string]bool{
-	"func": true, "requires": true, "ensures": true, "modifies": true, "preserves": true, "track": true, "before": true, "panics": true, "maypanic": true,
+	"func": true, "requires": true, "ensures": true, "modifies": true, "preserves": true, "monitor": true, "protects": true, "track": true, "before": true, "panics": true, "maypanic": true,
 	"loop": true, "invariant": true, "decreases": true, "spec": true, "lemma": true, "induct": true,
 	"smt": true, "smtlate": true, "closed": true, "fieldinv": true, "inline": true, "sort": true, "global": true, "package": true, "ghost": true, "type": true, "trusted": true, "props": true, "use": true, "hdruse": true, "axiom": true, "pattern": true, "opaque": true,
 }
@@ -183,6 +184,7 @@ func (cs *Contracts) loadContractFile(path string, pkg string, goFile bool) erro
 	var curF *FuncContract
 	var curLoop *LoopContract
 	var curL *Lemma
+	var curM *MonitorDecl
 	mk := func(text string, no int) (Clause, error) {
 		e, err := parseSpecExpr(text)
 		if err != nil {
@@ -255,6 +257,7 @@ func (cs *Contracts) loadContractFile(path string, pkg string, goFile bool) erro
 				return fmt.Errorf("%s:%d: bad func header", path, l.no)
 			}
 			name := strings.TrimSpace(m[1])
+			curM = nil
 			curF = &FuncContract{Name: name, Pkg: pkg, Loops: map[int]*LoopContract{}, File: path, Line: l.no}
 			key := pkg + "::" + name
 			if _, dup := cs.Funcs[key]; dup {
@@ -341,6 +344,25 @@ func (cs *Contracts) loadContractFile(path string, pkg string, goFile bool) erro
 			}
 			name := strings.TrimSpace(rest[:i])
 			curF.Before[name] = append(curF.Before[name], c)
+		case "monitor":
+			i := strings.Index(rest, ".")
+			if i < 0 {
+				return fmt.Errorf("%s:%d: monitor Type.field", path, l.no)
+			}
+			curM = &MonitorDecl{Pkg: pkg, Type: rest[:i], Field: strings.TrimSpace(rest[i+1:]), File: path, Line: l.no}
+			cs.Monitors[pkg+"."+curM.Type+"."+curM.Field] = curM
+			curF, curLoop, curL = nil, nil, nil
+		case "protects":
+			if curM == nil {
+				return fmt.Errorf("%s:%d: protects outside monitor", path, l.no)
+			}
+			for _, part := range splitTopLevel(rest, ',') {
+				c, err := mk(part, l.no)
+				if err != nil {
+					return err
+				}
+				curM.Protects = append(curM.Protects, c)
+			}
 		case "track":
 			f := strings.Fields(rest)
 			if len(f) != 2 {
@@ -384,6 +406,14 @@ func (cs *Contracts) loadContractFile(path string, pkg string, goFile bool) erro
 			curLoop = &LoopContract{}
 			curF.Loops[n] = curLoop
 		case "invariant":
+			if curLoop == nil && curM != nil && curF == nil {
+				c, err := mk(rest, l.no)
+				if err != nil {
+					return err
+				}
+				curM.Invariant = append(curM.Invariant, c)
+				continue
+			}
 			if curLoop == nil {
 				return fmt.Errorf("%s:%d: invariant outside loop", path, l.no)
 			}
@@ -508,7 +538,7 @@ func splitTopLevel(s string, sep rune) []string {
 
 func newContracts() *Contracts {
 	return &Contracts{Funcs: map[string]*FuncContract{}, Immut: map[string]bool{}, Closed: map[string][]string{},
-		ClosedIfaces: map[string]bool{}, FieldInvs: map[string]Clause{}, Inline: map[string]bool{}, SortAliases: map[string]SortAlias{}, Tracks: map[string]string{}}
+		ClosedIfaces: map[string]bool{}, FieldInvs: map[string]Clause{}, Inline: map[string]bool{}, SortAliases: map[string]SortAlias{}, Tracks: map[string]string{}, Monitors: map[string]*MonitorDecl{}}
 }
 
 // loadSpecDir loads *.spec files (trusted / prelude) from a directory, in name order.
